@@ -1,7 +1,11 @@
 mod alloc;
+mod c09;
 mod check;
+mod coord;
 mod exec;
+mod faults;
 mod gen;
+mod minimise;
 mod obs;
 mod ops;
 mod prng;
@@ -11,6 +15,11 @@ mod stubs;
 
 #[global_allocator]
 static GLOBAL: alloc::SimAlloc = alloc::SimAlloc;
+
+fn usage() -> i32 {
+    eprintln!("usage: lrusim check <Cxx> <quick|thorough> | replay <file> | worker ... | scan <Cxx> <n> [from] | selftest-determinism");
+    2
+}
 
 fn main() {
     let args: Vec<String> = std::env::args().collect();
@@ -23,17 +32,28 @@ fn main() {
             eprintln!("panic: {}", info);
         }
     }));
+    let code = match args.get(1).map(|s| s.as_str()) {
+        Some("check") if args.len() >= 4 => coord::check_main(&args[2], &args[3]),
+        Some("worker") if args.len() >= 8 => coord::worker_main(&args[2..]),
+        Some("replay") if args.len() >= 3 => coord::replay_main(&args[2]),
+        Some("scan") if args.len() >= 4 => scan(&args),
+        _ => usage(),
+    };
+    std::process::exit(code);
+}
+
+/// Development aid: run generated units in-process and print every violation class found.
+fn scan(args: &[String]) -> i32 {
     let env = run::detect_env();
-    let prop = args.get(1).cloned().unwrap_or("C01".into());
-    let n: u64 = args.get(2).and_then(|s| s.parse().ok()).unwrap_or(100);
-    let from: u64 = args.get(3).and_then(|s| s.parse().ok()).unwrap_or(0);
+    let prop = args[2].clone();
+    let n: u64 = args[3].parse().unwrap_or(100);
+    let from: u64 = args.get(4).and_then(|s| s.parse().ok()).unwrap_or(0);
     let stream = props::prop_num(&prop) as u64;
     let t0 = std::time::Instant::now();
     let mut steps = 0;
     let mut nv = 0;
     let mut classes = std::collections::BTreeMap::new();
     for i in from..n {
-        if std::env::var_os("LRUSIM_TRACE").is_some() { eprintln!("run {}", i); }
         let seed = prng::derive(1, stream, i);
         let (trace, out) = run::run_generated(&env, &prop, false, 1, i, seed);
         steps += out.steps;
@@ -55,5 +75,6 @@ fn main() {
     for (k, v) in &classes {
         println!("{:6} {}", v, k);
     }
-    println!("runs {} steps {} viols {} in {:?} (overhead {}, align {})", n, steps, nv, t0.elapsed(), env.overhead, env.table_align);
+    println!("runs {} steps {} viols {} in {:?} (overhead {}, align {})", n - from, steps, nv, t0.elapsed(), env.overhead, env.table_align);
+    0
 }
